@@ -217,7 +217,7 @@ def _copy_worker(item):
             res['outcomes'][oc] = res['outcomes'].get(oc, 0) + 1
             res['counters']['nontrivial'] += 1
             if why is not None and len(res['violations']) < 10:
-                kinds = sorted(set(assign[o[3]] for cl in calls for o in cl if o[0] in ('C', 'C*')))
+                kinds = sorted(set(assign[o[3]] for cl in calls for o in cl if o[0] in ('C', 'C*', 'C@')))
                 res['violations'].append({'case': {'copy_seq': list(seq), 'assign': list(assign), 'raw_ts': raw_ts},
                                           'expected': 'copy through TdmsGroup/TdmsChannel objects == original', 'observed': why[1],
                                           'signature': {'kind': 'copy-' + why[0], 'data_kinds': kinds, 'detail': None}})
@@ -235,7 +235,7 @@ def writer_states(calls, split):
         for ci in sess:
             groups = set(st[1])
             for o in calls[ci]:
-                if o[0] in ('G', 'C', 'C*'):
+                if o[0] in ('G', 'C', 'C*', 'C@'):
                     groups.add(o[1])
             st = (True, frozenset(groups))
             out.add(repr((st[0], sorted(st[1]))))
@@ -257,7 +257,7 @@ def _worker(item):
             oc, why = check_program(calls, assign, split, version, dest)
             res['counters']['programs'] += 1
             res['outcomes'][oc] = res['outcomes'].get(oc, 0) + 1
-            if oc in ('equal', 'deviates') and any(o[0] in ('C', 'C*') for c in calls for o in c):
+            if oc in ('equal', 'deviates') and any(o[0] in ('C', 'C*', 'C@') for c in calls for o in c):
                 res['counters']['nontrivial'] += 1
             if split:
                 res['counters']['multi_session'] += 1
@@ -265,7 +265,7 @@ def _worker(item):
                 k_ = 'accepted_shape_%d' % seq[0]
                 res['counters'][k_] = res['counters'].get(k_, 0) + 1
             if why is not None and len(res['violations']) < 25:
-                kinds = sorted(set(assign[o[3]] for c in calls for o in c if o[0] in ('C', 'C*')))
+                kinds = sorted(set(assign[o[3]] for c in calls for o in c if o[0] in ('C', 'C*', 'C@')))
                 res['violations'].append({
                     'case': {'seq': list(seq), 'assign': list(assign), 'split': split, 'version': version, 'dest': dest},
                     'expected': 'read back == written', 'observed': why[1],
@@ -281,7 +281,7 @@ def _worker(item):
 
 
 # call shapes that differ in channel order / channel set / block length / reused instances: explored to depth 3 in every tier
-ORDER_SUB = [4, 7, 8, 12, 14, 17, 23, 26]
+ORDER_SUB = [4, 7, 8, 12, 14, 17, 23, 27, 28]
 
 
 def run(ctx):
